@@ -24,6 +24,7 @@ import (
 	"path/filepath"
 	"sort"
 	"strings"
+	"time"
 
 	"github.com/restic/restic/internal/backend"
 	"github.com/restic/restic/internal/backend/mem"
@@ -213,7 +214,7 @@ func (c *c15Hist) emitState(n int) {
 		blobs := restic.NewBlobSet()
 		var ferr error
 		panicked, _ := Protect(func() {
-			ferr = data.FindUsedBlobs(ctx, repo, restic.IDs{*s.tree}, blobs, nil)
+			ferr = data.FindUsedBlobs(ctx, repo, restic.IDs{*s.tree}, blobs, restic.NoopCounter)
 		})
 		var l []string
 		for bh := range blobs {
@@ -419,12 +420,17 @@ func (c *c15Hist) runOp(cut bool) {
 	c.opn++
 	n := c.opn
 	// measure the number of mutating backend operations on a clone
-	clone := LoadBackend(DumpBackend(c.be))
-	crec := NewRecBackend(clone)
-	ccli := NewCLI(crec)
-	ccli.Password = c.pw
-	_ = ccli.Run(args...)
-	m := crec.Mutations()
+	t0 := time.Now()
+	m := 0
+	if cut {
+		clone := LoadBackend(DumpBackend(c.be))
+		crec := NewRecBackend(clone)
+		ccli := NewCLI(crec)
+		ccli.Password = c.pw
+		_ = ccli.Run(args...)
+		m = crec.Mutations()
+	}
+	t1 := time.Now()
 	c.rec.Reset()
 	k := -1
 	if cut && m > 0 {
@@ -432,6 +438,7 @@ func (c *c15Hist) runOp(cut bool) {
 		c.rec.CrashAfter = k
 	}
 	r := c.cli.Run(args...)
+	t2 := time.Now()
 	if k >= 0 && !c.rec.Crashed { // the real run needed fewer operations than the clone
 		k = -1
 	}
@@ -447,8 +454,13 @@ func (c *c15Hist) runOp(cut bool) {
 	if cmd == "migrate" && k < 0 && r.Exit == 0 {
 		c.version = 2
 	}
+	t3 := time.Now()
 	c.emitState(n)
+	t4 := time.Now()
 	c.emitCheck(n)
+	if os.Getenv("RESTIC_VERIF_DEBUG") != "" {
+		fmt.Fprintf(os.Stderr, "op %s %v: dry %v real %v fix %v state %v check %v\n", cmd, k >= 0, t1.Sub(t0), t2.Sub(t1), t3.Sub(t2), t4.Sub(t3), time.Since(t4))
+	}
 }
 
 func c15NewHist(h *H) *c15Hist {
@@ -471,7 +483,7 @@ func (c *c15Hist) init() {
 }
 
 func streamC15(h *H) {
-	nh := h.N(25, 2000)
+	nh := h.N(24, 2000)
 	maxOps := 8
 	if h.Thorough() {
 		maxOps = 25
